@@ -3,6 +3,7 @@ import Umya.Driver.C06View
 import Umya.Model.XmlEsc
 import Umya.Model.StyleCodec
 import Umya.Model.CellXml
+import Umya.Model.CellEdit
 namespace Umya.Driver.C04
 open Umya.XmlEsc Umya.Proto
 open Umya.AnnotCodec Umya.AnnotProt Umya.AnnotView Umya.AnnotPage
@@ -131,6 +132,49 @@ def norm (family spec : String) : String :=
   | "col" => normCol spec
   | _ => "bad-op"
 
+def parseCells (spec : String) : Option (List (Umya.CellXml.Cell F.Num)) :=
+  if spec = "~" then some [] else (spec.splitOn ",").mapM parseCell
+
+def showKept (kept : List (Umya.CellXml.Cell F.Num)) : String :=
+  if kept.isEmpty then "~" else ",".intercalate (kept.map fun c => s!"{c.col}.{c.row}")
+
+def parseCR (s : String) : Option (Nat × Nat) :=
+  match s.splitOn "." with
+  | [c, r] => match c.toNat?, r.toNat? with | some c, some r => some (c, r) | _, _ => none
+  | _ => none
+
+/-- `edit create <cells> <col>.<row> <n> <rows>`: the cell list of the sheet before the edit, the new cell's position,
+    its place in the list, the row numbers that have a record → the kept coordinates after one save + load of
+    `createSheet`, and the row numbers with a record after `ensureRow` (sorted).
+    `edit delete <cells> <col>.<row>` → the kept coordinates of `deleteSheet`;
+    `edit blank <cells> <col>.<row>` → the kept coordinates of `editSheet … setBlank`. -/
+def edit (args : List String) : String :=
+  match args with
+  | ["create", spec, cr, n, rows] =>
+    let rws : Option (List Nat) := if rows = "~" then some [] else (rows.splitOn ",").mapM (·.toNat?)
+    match parseCells spec, parseCR cr, n.toNat?, rws with
+    | some cs, some (c, r), some n, some rws =>
+      let cell : Umya.CellXml.Cell F.Num := { col := c, row := r, raw := .str ['x'] }
+      match Umya.CellXml.lookup F cs (r, c) with
+      | some _ => "not-a-creation"
+      | none =>
+        let kept := Umya.CellXml.normS F (Umya.CellXml.createSheet F n cell cs)
+        let rs := (Umya.CellXml.ensureRow r 0 (rws.map fun k => ({ num := k }, 0))).map (·.1.num)
+        let sorted := rs.toArray.qsort (· < ·) |>.toList
+        showKept kept ++ " " ++ ",".intercalate (sorted.map toString)
+    | _, _, _, _ => "bad-op"
+  | ["delete", spec, cr] =>
+    match parseCells spec, parseCR cr with
+    | some cs, some (c, r) => showKept (Umya.CellXml.normS F (Umya.CellXml.deleteSheet F (r, c) cs))
+    | _, _ => "bad-op"
+  | ["blank", spec, cr] =>
+    match parseCells spec, parseCR cr with
+    | some cs, some (c, r) =>
+      -- `editSheet F (r, c) (Cell.setBlank F)` of `Umya/Lemmas/ResaveCells.lean`, written out
+      showKept (Umya.CellXml.normS F (cs.map fun x => if (x.row, x.col) = (r, c) then Umya.CellXml.Cell.setBlank F x else x))
+    | _, _ => "bad-op"
+  | _ => "bad-op"
+
 /-- `attr <stored> <raw>`: the model checks that the raw attribute text in the file is what
     `attrWrite` produces for the stored text and answers with what `attrRead` makes of it -/
 def handle (args : List String) : String :=
@@ -142,6 +186,7 @@ def handle (args : List String) : String :=
       if attrWrite s = r then encodeStr (attrRead r) else "written-differently:" ++ encodeStr (attrWrite s)
     | _, _ => "bad-op"
   | ["norm", family, spec] => norm family spec
+  | "edit" :: rest => edit rest
   | _ => "bad-op"
 
 end Umya.Driver.C04
